@@ -120,7 +120,7 @@ func (consumer *Consumer) retrieveAndSendMessage() {
 	consumer.channel.SendContent(&amqp.BasicDeliver{
 		ConsumerTag: consumer.ConsumerTag,
 		DeliveryTag: dTag,
-		Redelivered: message.DeliveryCount > 1,
+		Redelivered: message.DeliveryCount > 0,
 		Exchange:    message.Exchange,
 		RoutingKey:  message.RoutingKey,
 	}, message)
